@@ -1448,6 +1448,10 @@ func ParseDSAPrivateKey(der []byte) (*dsa.PrivateKey, error) {
 	if len(rest) > 0 {
 		return nil, errors.New("ssh: garbage after DSA key")
 	}
+	if k.P.Sign() <= 0 || k.Priv.Sign() <= 0 || k.Priv.Cmp(k.Q) >= 0 ||
+		new(big.Int).Exp(k.G, k.Priv, k.P).Cmp(k.Pub) != 0 {
+		return nil, errors.New("ssh: public key does not match private key")
+	}
 
 	return &dsa.PrivateKey{
 		PublicKey: dsa.PublicKey{
